@@ -515,3 +515,145 @@ var _ uuid.UUID
 //@ invariant [spawned] spawned == rangeindex + 1 && real == 0 && 0 - 1 <= rangeindex && rangeindex + 1 <= len(partitions) && len(partitions) == len(partitionIds)
 //@ loop 3
 //@ invariant [consumed] real == i && 0 <= i && i <= len(partitions) && spawned == len(partitions) && len(partitions) == len(partitionIds) && fresh(result)
+
+// ---------------------------------------------------------------------------------------------
+// C11: truthful acknowledgements
+
+//@ func github.com/golang/protobuf/proto.Marshal
+//@ props C11 C14 C20
+//@ assume
+//@ modifies nothing
+
+//@ func (*storage/raft.RaftGroup).Propose
+//@ props C11 C14
+//@ assume
+//@ modifies nothing
+
+// success is returned only for a value that came out of this proposal's own notification channel
+//@ func (*storage.partition).proposeAndWaitForCommit
+//@ props C11
+//@ safety C12
+//@ ghost proposed int = 0
+//@ ghost notified int = 0
+//@ at call RaftGroup).Propose
+//@ set proposed = proposed + 1
+//@ end
+//@ at recv local:notifC
+//@ set notified = notified + 1
+//@ end
+//@ requires [wf] this.notificator != nil && this.notificator.chans != nil && this.raft != nil && proposal != nil && !isnil(ctx)
+//@ ensures [success-only-after-notification] isnil(ret1) ==> notified == 1 && proposed == 1
+//@ ensures [timeout-is-error] notified == 0 ==> !isnil(ret1)
+//@ modifies *
+
+//@ func (*storage.Dataset).checkDimension
+//@ props C11 C09
+//@ pure
+//@ requires [meta] this.meta != nil && value != nil
+//@ ensures [check] isnil(ret) == (len(*value) % 4294967296 == this.meta.Dimension)
+//@ ensures [err] !isnil(ret) ==> ret == DimensionMissmatchErr
+
+//@ func (*storage.Dataset).getPartitionForId
+//@ props C10 C11
+//@ pure
+//@ requires [partitions] this.meta != nil && this.meta.PartitionCount >= 1 && len(this.partitions) == this.meta.PartitionCount
+//@ ensures [owner] ret == this.partitions[uuidmod(id, this.meta.PartitionCount)] && uuidmod(id, this.meta.PartitionCount) < len(this.partitions)
+
+//@ func (*storage.partition).insert
+//@ props C11
+//@ assume
+//@ modifies *
+//@ func (*storage.partition).update
+//@ props C11
+//@ assume
+//@ modifies *
+//@ func (*storage.partition).remove
+//@ props C11
+//@ assume
+//@ modifies *
+
+//@ func iface:protobuf.DataManagerClient.Insert
+//@ props C11
+//@ assume
+//@ modifies nothing
+//@ func iface:protobuf.DataManagerClient.Update
+//@ props C11
+//@ assume
+//@ modifies nothing
+//@ func iface:protobuf.DataManagerClient.Remove
+//@ props C11
+//@ assume
+//@ modifies nothing
+
+// single writes: dimension mismatch is rejected before anything is proposed or sent; an unreachable owner or a failed
+// remote call is an error; otherwise the answer is the owner's answer
+//@ func (*storage.Dataset).Insert
+//@ props C11 C10
+//@ safety C12
+//@ ghost proposals int = 0
+//@ ghost rpcs int = 0
+//@ ghost dialFailed int = 0
+//@ ghost rpcFailed int = 0
+//@ at call partition).insert
+//@ set proposals = proposals + 1
+//@ end
+//@ at call getDataManagerClient
+//@ set dialFailed = ite(isnil($ret1), 0, 1)
+//@ end
+//@ at call DataManagerClient.Insert
+//@ set rpcs = rpcs + 1
+//@ set rpcFailed = ite(isnil($ret1), 0, 1)
+//@ end
+//@ requires [wf] wfDataset(this) && this.meta.PartitionCount >= 1 && len(this.partitions) == this.meta.PartitionCount
+//@ ensures [dimension-first] len(value) % 4294967296 != old(this.meta.Dimension) ==> ret == DimensionMissmatchErr && proposals == 0 && rpcs == 0
+//@ ensures [unreachable-owner] dialFailed == 1 ==> !isnil(ret)
+//@ ensures [rpc-error] rpcFailed == 1 ==> !isnil(ret)
+//@ ensures [exactly-one-route] isnil(ret) ==> proposals + rpcs == 1
+//@ modifies *
+
+//@ func (*storage.Dataset).Update
+//@ props C11 C10
+//@ safety C12
+//@ ghost proposals int = 0
+//@ ghost rpcs int = 0
+//@ ghost dialFailed int = 0
+//@ ghost rpcFailed int = 0
+//@ at call partition).update
+//@ set proposals = proposals + 1
+//@ end
+//@ at call getDataManagerClient
+//@ set dialFailed = ite(isnil($ret1), 0, 1)
+//@ end
+//@ at call DataManagerClient.Update
+//@ set rpcs = rpcs + 1
+//@ set rpcFailed = ite(isnil($ret1), 0, 1)
+//@ end
+//@ requires [wf] wfDataset(this) && this.meta.PartitionCount >= 1 && len(this.partitions) == this.meta.PartitionCount
+//@ ensures [dimension-first] len(value) % 4294967296 != old(this.meta.Dimension) ==> ret == DimensionMissmatchErr && proposals == 0 && rpcs == 0
+//@ ensures [unreachable-owner] dialFailed == 1 ==> !isnil(ret)
+//@ ensures [rpc-error] rpcFailed == 1 ==> !isnil(ret)
+//@ ensures [exactly-one-route] isnil(ret) ==> proposals + rpcs == 1
+//@ modifies *
+
+//@ func (*storage.Dataset).Remove
+//@ props C11 C10
+//@ safety C12
+//@ ghost proposals int = 0
+//@ ghost rpcs int = 0
+//@ ghost dialFailed int = 0
+//@ ghost rpcFailed int = 0
+//@ at call partition).remove
+//@ set proposals = proposals + 1
+//@ end
+//@ at call getDataManagerClient
+//@ set dialFailed = ite(isnil($ret1), 0, 1)
+//@ end
+//@ at call DataManagerClient.Remove
+//@ set rpcs = rpcs + 1
+//@ set rpcFailed = ite(isnil($ret1), 0, 1)
+//@ end
+//@ requires [wf] wfDataset(this) && this.meta.PartitionCount >= 1 && len(this.partitions) == this.meta.PartitionCount
+//@ ensures [unreachable-owner] dialFailed == 1 ==> !isnil(ret)
+//@ ensures [rpc-error] rpcFailed == 1 ==> !isnil(ret)
+//@ ensures [exactly-one-route] isnil(ret) ==> proposals + rpcs == 1
+//@ modifies *
